@@ -694,7 +694,7 @@ end odd
 
 /-! ### odd widths: the rows -/
 
-theorem toF_pow2 (k : Nat) : toF (pow2 k) = (2 : F) ^ k := by
+theorem toF_pow2_rc (k : Nat) : toF (pow2 k) = (2 : F) ^ k := by
   unfold pow2; rw [toF_mod]; unfold toF; push_cast; rfl
 
 theorem boolGate_plain (a : Nat) : Gate.plain (boolGate a) := ⟨rfl, rfl, rfl, rfl⟩
@@ -714,12 +714,12 @@ theorem rowHolds_addGate (l t r top va vb vc vd an bn dn : Nat) :
   rw [rowHolds_arith _ rfl rfl rfl rfl]
   unfold arithF addGate
   simp only [Constraint.arithmetic, Constraint.fromExternal, Constraint.toGate, toF_R_sub_one,
-    toF_zero, toF_one, toF_pow2]
+    toF_zero, toF_one, toF_pow2_rc]
   constructor <;> intro h <;> linear_combination -h
 
 theorem toF_addVal (c : Composer) (l t top : Nat) :
     toF (addVal c l t top) = toF (c.val l) + 2 ^ top * toF (c.val t) := by
-  unfold addVal; simp [toF_pow2]
+  unfold addVal; simp [toF_pow2_rc]
 
 section odd
 variable (c : Composer) (x n : Nat)
@@ -857,7 +857,7 @@ theorem rangeCheck_last_plain (c : Composer) (x n : Nat) :
     rw [gateAt_of_get (rangeOddOut_get2 c x n)]
     exact eqGate_plain _ _
 
-theorem bool_cases {b : F} (h : b * b = b) : b = 0 ∨ b = 1 := by
+theorem bool_cases_rc {b : F} (h : b * b = b) : b = 0 ∨ b = 1 := by
   have : b * (b - 1) = 0 := by linear_combination h
   rcases mul_eq_zero.mp this with h | h
   · exact Or.inl h
@@ -888,7 +888,7 @@ theorem rangeCheck_sound_core (c : Composer) (x n : Nat) (h254 : n ≤ 254) (hpi
       conv_lhs => rw [this, pow_succ]
       ring
     rw [← h4, h3]
-    rcases bool_cases h2 with hb | hb
+    rcases bool_cases_rc h2 with hb | hb
     · refine val_toF_natCast_lt (n := (toF (w c.wit.size)).val) ?_ (by omega) hlt
       rw [hb, ← hm]; ring
     · refine val_toF_natCast_lt (n := (toF (w c.wit.size)).val + 2 ^ (n - 1)) ?_ (by omega) hlt
